@@ -109,6 +109,43 @@ def records(ctx, rng, nid):
             out = {'raised': type(e).__name__ + ':' + str(e)[:60]}
         recs.append({'id': 'same-%d' % next(nid), 'op': 'same', 'site': site,
                      'in': {'law': 'ReferenceSizeInvariance', 'c': common.rat(c), 'P': P, 'mode': case['mode'], 'frozen': case['frozen']}, 'out': out})
+    # (b2) the equilibrium density itself under strong selection: the numerical regime must follow gamma*nu, not gamma
+    for gam in (-400.0, -250.0, -100.0, 100.0, 250.0):
+        for c in (2.0, 5.0, 0.2):
+            xx = Numerics.default_grid(24)
+            try:
+                x = PhiManip.phi_1D(xx, nu=c, theta0=1.0 / c, gamma=gam / c)
+                y = PhiManip.phi_1D(xx, nu=1.0, theta0=1.0, gamma=gam)
+                out = {'x': common.rats(x), 'y': common.rats(y)}
+            except Exception as e:
+                out = {'raised': type(e).__name__ + ':' + str(e)[:60]}
+            recs.append({'id': 'same-%d' % next(nid), 'op': 'same', 'site': 'PhiManip.phi_1D',
+                         'in': {'law': 'ReferenceSizeInvariance', 'c': common.rat(c), 'gamma': common.rat(gam), 'P': 1, 'mode': 'equilibrium'}, 'out': out})
+    # (b3) a severe bottleneck seen from a large reference size: very small relative sizes, hence very short time steps
+    for r in range(3 if ctx.quick else 12):
+        P = rng.choice([1, 2])
+        case = ic.gen_case(rng, P, kind='normal', n={1: 12, 2: 8}[P], mode=rng.choice(['const', 'funcconst']))
+        case['t0'] = 0.0
+        case['frozen'] = [False] * P
+        case['layout'] = 'C'
+        for p_ in case['par']:
+            p_['nu'] = {'c0': rng.uniform(0.003, 0.01), 'c1': 0.0}
+            p_['gamma'] = {'c0': 0.0, 'c1': 0.0}
+            p_['mig'] = [{'c0': 0.0, 'c1': 0.0, 'const': True} for _ in p_['mig']]
+        xx = rand_grid(random.Random(case['grid_seed']), case['n'], case['grid_kind'])
+        phi1 = rand_density(random.Random(case['phi_seed']), [case['n']] * P)
+        dts = [Integration._compute_dt(np.diff(xx), p_['nu']['c0'], [0], 0.0, 0.5) for p_ in case['par']]
+        T = rng.uniform(2.2, 5.5) * min(dts)
+        c = 0.05
+        f = getattr(Integration, ic.FUNCS[P])
+        try:
+            x = f(phi1.copy(), xx, T * c, **_kwargs(case, scale=c))
+            y = f(phi1.copy(), xx, T, **_kwargs(case))
+            out = {'x': common.rats(x.ravel()), 'y': common.rats(y.ravel())}
+        except Exception as e:
+            out = {'raised': type(e).__name__ + ':' + str(e)[:60]}
+        recs.append({'id': 'same-%d' % next(nid), 'op': 'same', 'site': 'Integration.%s' % ic.FUNCS[P],
+                     'in': {'law': 'ReferenceSizeInvariance', 'c': common.rat(c), 'P': P, 'mode': case['mode'] + '/bottleneck', 'frozen': case['frozen']}, 'out': out})
     # (c) whole models built from the public API: equilibrium, size change, split, migration, selection, admixture
     for r in range(8 if ctx.quick else 60):
         recs.append(model_record(rng, nid))
